@@ -366,6 +366,60 @@ pub proof fn lemma_same_edit_recorded_same(m1: RevMap, t1: RevisionTree, m2: Rev
         edit_by(m2, t2, edit_rev(dg2, Some(w2)), Some(w2), r2),
     ensures r1@ == r2@, rev_str(r1@) == rev_str(r2@), t1.revisions@.contains_key(r1), t2.revisions@.contains_key(r2),
 { }
+/// both calls return an identifier text, the same one
+pub open spec fn same_text(ra: Result<Option<String>, VxError>, rb: Result<Option<String>, VxError>) -> bool {
+    match (ra, rb) { (Ok(Some(x)), Ok(Some(y))) => x@ == y@, _ => false }
+}
+pub open spec fn opt_digest(o: Option<JMap>) -> Option<Seq<char>> { match o { Some(x) => Some(obj_digest(x)), None => None } }
+/// C19 over the contract of `update_object`: replicas A and B both know `uuid`, their winners have the same identifier, and
+/// the contents they store for the edit have the same digest (plain object: the submitted objects have the same digest; array:
+/// the same edit script).  Then both updates return the SAME identifier text; and when the edit is a change, both trees hold
+/// a staged revision with that identifier whose parent is the respective winner.
+pub proof fn lemma_update_same_edit_same_revision(a0: Melda, a1: Melda, b0: Melda, b1: Melda, uuid: Seq<char>, oa: JMap, ob: JMap,
+        ra: Result<Option<String>, VxError>, rb: Result<Option<String>, VxError>)
+    requires
+        update_post(a0, a1, uuid, oa, ra), update_post(b0, b1, uuid, ob, rb),
+        dmap(a0.documents).contains_key(uuid), dmap(b0.documents).contains_key(uuid),
+        dmap(a0.documents)[uuid].winner_cache is Some, dmap(b0.documents)[uuid].winner_cache is Some,
+        dmap(a0.documents)[uuid].winner_cache->0@ == dmap(b0.documents)[uuid].winner_cache->0@,
+        opt_digest(edit_content(a0.data, dmap(a0.documents)[uuid], dmap(a0.documents)[uuid].winner_cache->0, uuid, oa))
+            == opt_digest(edit_content(b0.data, dmap(b0.documents)[uuid], dmap(b0.documents)[uuid].winner_cache->0, uuid, ob)),
+    ensures
+        same_text(ra, rb),
+        must_record(a0.data, dmap(a0.documents)[uuid], dmap(a0.documents)[uuid].winner_cache->0, uuid, oa)
+            == must_record(b0.data, dmap(b0.documents)[uuid], dmap(b0.documents)[uuid].winner_cache->0, uuid, ob),
+        must_record(a0.data, dmap(a0.documents)[uuid], dmap(a0.documents)[uuid].winner_cache->0, uuid, oa) ==>
+            exists|xa: Revision, xb: Revision| xa@ == xb@
+                && #[trigger] dmap(a1.documents)[uuid].revisions@.contains_key(xa) && #[trigger] dmap(b1.documents)[uuid].revisions@.contains_key(xb)
+                && res_text(ra, rev_str(xa@)),
+{
+    let ta = dmap(a0.documents)[uuid]; let tb = dmap(b0.documents)[uuid];
+    let wa = ta.winner_cache->0; let wb = tb.winner_cache->0;
+    if must_record(a0.data, ta, wa, uuid, oa) {
+        let ca = edit_content(a0.data, ta, wa, uuid, oa)->0; let cb = edit_content(b0.data, tb, wb, uuid, ob)->0;
+        let va = edit_rev(obj_digest(ca), Some(wa)); let vb = edit_rev(obj_digest(cb), Some(wb));
+        assert(va == vb);
+        let xa = choose|r: Revision| #[trigger] edit_by(ta.revisions@, dmap(a1.documents)[uuid], va, Some(wa), r);
+        let xb = choose|r: Revision| #[trigger] edit_by(tb.revisions@, dmap(b1.documents)[uuid], vb, Some(wb), r);
+        assert(xa@ == xb@ && dmap(a1.documents)[uuid].revisions@.contains_key(xa) && dmap(b1.documents)[uuid].revisions@.contains_key(xb));
+    }
+}
+/// C19 for creations: two replicas that do not know `uuid` and create it with contents of the same digest obtain the same
+/// identifier text
+pub proof fn lemma_create_same_edit_same_revision(a0: Melda, a1: Melda, b0: Melda, b1: Melda, uuid: Seq<char>, oa: JMap, ob: JMap,
+        ra: Result<Option<String>, VxError>, rb: Result<Option<String>, VxError>)
+    requires
+        create_post(a0, a1, uuid, oa, ra), create_post(b0, b1, uuid, ob, rb),
+        !dmap(a0.documents).contains_key(uuid), !dmap(b0.documents).contains_key(uuid),
+        obj_digest(oa) == obj_digest(ob),
+    ensures
+        same_text(ra, rb), res_text(ra, rev_str(child_of(1, obj_digest(oa), None))),
+{
+    // an unknown object has no recorded revision: `Ok(None)` (already recorded) is impossible
+    let v = edit_rev(obj_digest(oa), None);
+    if already_recorded(tree_of(dmap(a0.documents), uuid), v) { let r = choose|r: Revision| #[trigger] has_rev(tree_of(dmap(a0.documents), uuid), v, r); assert(false); }
+    if already_recorded(tree_of(dmap(b0.documents), uuid), v) { let r = choose|r: Revision| #[trigger] has_rev(tree_of(dmap(b0.documents), uuid), v, r); assert(false); }
+}
 /// the identifier depends on the parent only through the parent's identifier TEXT
 pub proof fn lemma_edit_rev_function_of_text(p1: Revision, p2: Revision, dg: Seq<char>)
     requires rev_str(p1@) == rev_str(p2@), p1.index == p2.index,
